@@ -347,7 +347,10 @@ func TraceLines(id string, evs []Event, node string, names *Names) []Event {
 					out = append(out, Event{"ev": "signprop", "seq": e["seq"], "r": e["r"], "val": e["val"], "pol": e["pol"], "mid": e["mid"]})
 				}
 			case "walwrite":
-				if e["wal"] == "round" && (e["kind"] == "vote" || e["kind"] == "proposal") {
+				if e["wal"] == "round" && e["kind"] == "vote" {
+					// own vote signed and logged (it counts in the engine's vote sets from here on, also after a restart)
+					out = append(out, Event{"ev": "walvote", "seq": e["seq"], "mid": e["mid"], "type": e["type"], "r": e["r"], "val": e["val"]})
+				} else if e["wal"] == "round" && e["kind"] == "proposal" {
 					out = append(out, Event{"ev": "walwrite", "seq": e["seq"], "mid": e["mid"]})
 				}
 			case "walsync":
